@@ -144,11 +144,24 @@ def generate(rng, tier):
         ctor = rng.choice(CONFIGS)[1]
         r = rng.random()
         cases.append(('h%d' % i, random_case(rng, ctor, rng.randrange(20, 160), lcd_off=r < 0.8, dma=r > 0.9)))
+    # OAM is plain memory with the LCD off whenever it was switched off: the guest CPU reads through HL (and steps HL
+    # with 16-bit INC/DEC) inside FE00-FEFF after the LCD was switched off k cycles into a line
+    ncpu = 40 if quick else 600
+    for i in range(ncpu):
+        k = rng.choice([0, 1, 2, 3, 5, 10, 19, 20, 21, 63, 113, 114, 115, 117, rng.randrange(0, 17556)])
+        hl = 0xfe00 + rng.choice([0, 7, 8, 9, 0x10, 0x50, 0x98, 0x9f, 0xa0, 0xff, rng.randrange(256)])
+        lines = ['sys.cpurom', 'sys.w 0xFF40 0x11', 'map.fill 0xFE00 0xFE9F %d %d %d' % (rng.randrange(256), rng.randrange(1, 8), rng.randrange(1, 8))]
+        for j, b in enumerate([0x7e, 0x23, 0x2b, 0x7e, 0x18, 0xfa]):
+            lines.append('sys.w %d %d' % (0xc000 + j, b))
+        lines += ['sys.w 0xFF40 0x91', 'sys.hw %d' % k, 'sys.w 0xFF40 0x11',
+                  'sys.set 1 2 3 4 5 0 %d %d 57343 49152' % (hl >> 8, hl & 255), 'sys.cyc %d' % rng.randrange(3, 30),
+                  'sys.rr 0xFE00 0xFE9F']
+        cases.append(('cpuoam%d' % i, lines))
     ops = sum(len(c[1]) for c in cases)
     info = dict(exhaustive=True,
                 input_distribution=dict(sweep_cases=n_sweep, addresses_per_sweep=65536, values=len(VALUES),
                                         cartridge_configs=[c[0] for c in cfgs],
-                                        io_single_write_cases=n_io, random_histories=nrand, script_lines=ops),
+                                        io_single_write_cases=n_io, random_histories=nrand, cpu_oam_lcd_off_cases=ncpu, script_lines=ops),
                 samples=[dict(case=cases[0][0], script=cases[0][1]),
                          dict(case=cases[n_sweep + 9][0], script=cases[n_sweep + 9][1]),
                          dict(case=cases[-1][0], script=cases[-1][1][:40] + ['...'])])
